@@ -475,7 +475,7 @@ def run_case(case, ctx):
 def stages(tier):
     q = tier == "quick"
     return [
-        HypStage("histories", union_case, examples=600 if q else 4000, shards=10 if q else 16),
+        HypStage("histories", union_case, examples=600 if q else 8000, shards=10 if q else 16),
         HypStage("explicit-offsets", offset_case, examples=400 if q else 3000, shards=2 if q else 4),
     ]
 
